@@ -26,6 +26,8 @@ type seamRule struct {
 	Callee  string `json:"callee"`  // import path of the callee package
 	Name    string `json:"name"`    // package-level identifier
 	Replace string `json:"replace"` // local identifier defined by an overlay file
+	// RecvType != "": Name is a method of Callee.RecvType; x.Name(args) becomes Replace(x, args)
+	RecvType string `json:"recv_type"`
 }
 
 type config struct {
@@ -326,7 +328,7 @@ func (c *fileCtx) process() bool {
 				return true
 			}
 			for _, r := range c.cfg.Seams {
-				if r.Callee == p && r.Name == v.Sel.Name && (r.InPkg == "" || strings.HasSuffix(c.pkg.PkgPath, r.InPkg)) {
+				if r.RecvType == "" && r.Callee == p && r.Name == v.Sel.Name && (r.InPkg == "" || strings.HasSuffix(c.pkg.PkgPath, r.InPkg)) {
 					if i := strings.Index(r.Replace, "."); i > 0 {
 						// "simrt.Name": a function of the simulation runtime with the same signature
 						cur.Replace(sel(r.Replace[:i], r.Replace[i+1:]))
@@ -450,6 +452,18 @@ func (c *fileCtx) rewriteCall(ce *ast.CallExpr) {
 		return
 	}
 	rp, rt := recvTypeName(o)
+	if rt != "" {
+		for _, r := range c.cfg.Seams {
+			if r.RecvType == rt && r.Callee == rp && r.Name == o.Name() && (r.InPkg == "" || strings.HasSuffix(c.pkg.PkgPath, r.InPkg)) {
+				if se, ok := ce.Fun.(*ast.SelectorExpr); ok {
+					ce.Args = append([]ast.Expr{se.X}, ce.Args...)
+					ce.Fun = ast.NewIdent(r.Replace)
+					c.st.seam++
+					return
+				}
+			}
+		}
+	}
 	switch {
 	case o.Name() == "Go" && strings.HasSuffix(rp, "x/sync/errgroup") && rt == "Group" && len(ce.Args) == 1:
 		ce.Args[0] = call(sel("simrt", "WrapE"), lit(c.siteAt("eg", ce)), ce.Args[0])
